@@ -15,6 +15,8 @@ open RdfModel RdfModel.Desc RdfModel.JL RdfModel.JLEnc RdfModel.C10
 #print axioms RdfModel.C10.encoder_iri_roundtrip
 #print axioms RdfModel.C10.encoder_doc_context
 #print axioms RdfModel.C10.encoder_statement_read
+#print axioms RdfModel.C10.encCert_of_natural_holds
+#print axioms RdfModel.C10.encoder_roundtrip_natural2_partial
 #print axioms RdfModel.C10.gen_keywords
 #print axioms RdfModel.C10.gen_no_network_imports
 #print axioms RdfModel.C10.gen_default_loader_refuses
@@ -85,3 +87,12 @@ theorem RdfModel.C10.Witness.roundtrip :
 
 #print axioms RdfModel.C10.Witness.denotes
 #print axioms RdfModel.C10.Witness.roundtrip
+
+/-- the natural-hypotheses theorem at the witness (non-vacuity of `encoder_roundtrip_natural2_partial`) -/
+theorem RdfModel.C10.Witness.roundtrip_natural2 :
+    ∃ doc out, encode Witness.cfg Witness.d0 (defaultOrd Witness.d0) (defaultOrd Witness.d0) = some doc ∧
+      toRdf false (some (asc "http://other.example/base")) doc = some out ∧ Spec.IsoQ out Witness.d0 :=
+  encoder_roundtrip_natural2_partial false _ Witness.cfg Witness.name_injective Witness.name_nonempty Witness.d0
+    (defaultOrd Witness.d0) (defaultOrd Witness.d0) (fun _ h => h) (fun _ h => h) Witness.natural.1 Witness.natural.2.2.1
+    Witness.natural2.2.1 Witness.natural2.2.2.1 Witness.natural2.2.2.2.1
+#print axioms RdfModel.C10.Witness.roundtrip_natural2
